@@ -25,8 +25,9 @@ Next ==
                  [] e.ev = "admit"  -> O!ObsAdmit(obs, e.c)
                  [] e.ev = "reject" -> O!ObsReject(obs, e.c, e.kind)
                  [] e.ev = "done"   -> O!ObsDone(obs, e.c, e.o, e.state)
+                 [] e.ev = "probe"  -> O!ObsProbe(obs, e.res, e.state)
                  [] e.ev = "stuck"  -> O!ObsStuck(obs, e.c, e.at)
-                 [] e.ev = "st"     -> [obs EXCEPT !.viol = <<>>]
+                 [] e.ev \in {"st", "drift", "skip"} -> [obs EXCEPT !.viol = <<>>]
 
 Spec == Init /\ [][Next]_<<l, seg, obs>>
 
